@@ -43,7 +43,7 @@ m("M02h", "C02", "src/aead/aes_gcm.rs", "const AEAD_ID: u16 = 0x0002;", "const A
 m("M02i", "C02", S, 'b"exp",', 'b"exp\\0",', "exporter label")
 # ---- C03
 m("M03a", "C03", K, 'b"eae_prk"', 'b"eae-prk"', "eae_prk typo")
-m("M03b", "C03", D, "&kex_res_eph.to_bytes(),\n                        &kex_res_identity.to_bytes()", "&kex_res_identity.to_bytes(),\n                        &kex_res_eph.to_bytes()", "auth DH concat order (both sides)", )
+m("M03b", "C03", D, [("&kex_res_eph.to_bytes(),\n                        &kex_res_identity.to_bytes()", "&kex_res_identity.to_bytes(),\n                        &kex_res_eph.to_bytes()"), ("&kex_res_eph.to_bytes(),\n                            &kex_res_identity.to_bytes()", "&kex_res_identity.to_bytes(),\n                            &kex_res_eph.to_bytes()")], None, "auth DH concat order (both sides)")
 m("M03c", "C03", N, "    0x01           // RFC 9180", "    0x03           // RFC 9180", "P-521 bitmask")
 m("M03d", "C03", N, '.labeled_expand(suite_id, b"candidate", &[counter], &mut buf)', '.labeled_expand(suite_id, b"candidate", &[counter.min(0)], &mut buf)', "candidate counter ignored (retry corpus only)")
 m("M03e", "C03", X, '.labeled_expand(suite_id, b"sk", &[], &mut buf)', '.labeled_expand(suite_id, b"sk", &[0], &mut buf)', "X25519 sk expand info")
@@ -134,15 +134,16 @@ m("M07f", "C07", D, """                    let (kem_context_buf, kem_context_siz
                     );""", "pkR left out of kem_context (base, both sides)", )
 # ---- C08
 m("M08a", "C08", D, None, None, "static-static DH term removed on both sides")  # special
-m("M08b", "C08", D, None, None, "pkS left out of kem_context on both sides; public-half impostor unaffected but...")  # special
+m("M08b", "C03", D, None, None, "pkS left out of kem_context on both sides (C08 still holds: the static DH term authenticates; this is a conformance break)")  # special
 # ---- C09
 m("M09a", "C09", N, "enforce_equal_len(Self::OutputSize::to_usize(), encoded.len())?;\n\n                    // Now just deserialize", "// Now just deserialize", "pubkey length pre-check removed: compressed points parse")
-m("M09c", "C09", N, "enforce_equal_len(Self::OutputSize::to_usize(), encoded.len())?;\n\n                    // Invalid scalars", "enforce_equal_len(encoded.len(), Self::OutputSize::to_usize())?;\n\n                    // Invalid scalars", "(expected, given) swapped for private keys")
+m("M09c", "C09", N, "enforce_equal_len(Self::OutputSize::to_usize(), encoded.len())?;\n\n                    // * Invariant: PrivateKey", "enforce_equal_len(encoded.len(), Self::OutputSize::to_usize())?;\n\n                    // * Invariant: PrivateKey", "(expected, given) swapped for private keys")
+m("M09d", "C09", N, ".map_err(|_| HpkeError::ValidationError)?;\n                    Ok(PublicKey(parsed))", ".map_err(|_| HpkeError::IncorrectInputLength(Self::OutputSize::to_usize(), encoded.len()))?;\n                    Ok(PublicKey(parsed))", "invalid point reported as IncorrectInputLength")
 # ---- C10
 m("M10a", "C10", X, "if res.as_bytes().ct_eq(&[0u8; 32]).into() {", "if res.as_bytes().ct_eq(&[0u8; 32]).into() && pk.0.as_bytes()[31] & 0x80 == 0 {", "zero check skipped when bit 255 of the point is set")
-m("M10b", "C10", D, """                    let kex_res_identity = <$dhkex as DhKeyExchange>::dh(sk_recip, pk_sender_id)
-                        .map_err(|_| HpkeError::DecapError)?;""", """                    let kex_res_identity = <$dhkex as DhKeyExchange>::dh(sk_recip, pk_sender_id)
-                        .map_err(|_| HpkeError::EncapError)?;""", "EncapError returned from decap (second DH)")
+m("M10b", "C10", D, """                        let kex_res_identity = <$dhkex as DhKeyExchange>::dh(sk_recip, pk_sender_id)
+                            .map_err(|_| HpkeError::DecapError)?;""", """                        let kex_res_identity = <$dhkex as DhKeyExchange>::dh(sk_recip, pk_sender_id)
+                            .map_err(|_| HpkeError::EncapError)?;""", "EncapError returned from decap (second DH)")
 # ---- C11
 m("M11a", "C11", A, '.labeled_expand(&self.suite_id, b"sec", exporter_ctx, out_buf)', '.labeled_expand(&self.suite_id, b"exp", exporter_ctx, out_buf)', "export label")
 m("M11c", "C11", A, "        let hkdf_ctx = SimpleHkdf::<Kdf>::from_prk(self.exporter_secret.0.as_slice()).unwrap();", "        if out_buf.len() >= 255 * self.exporter_secret.0.len() { return Err(HpkeError::KdfOutputTooLong); }\n        let hkdf_ctx = SimpleHkdf::<Kdf>::from_prk(self.exporter_secret.0.as_slice()).unwrap();", "off-by-one length limit at exactly 255*Nh")
@@ -150,7 +151,7 @@ m("M11d", "C11", "src/aead/export_only.rs", 'panic!("Cannot encrypt with an expo
 # ---- C12
 m("M12b", "C12", U, "if given_len != expected_len {", "if given_len < expected_len {", "'<' in enforce_equal_len (longer inputs pass; copy panics or truncates)")
 m("M12c", "C12", A, "enforce_equal_len(Self::size(), encoded.len())?;", "enforce_equal_len(encoded.len(), Self::size())?;", "swapped error payload for tags")
-m("M12d", "C12", U, "        size == buf_len,", "        size <= buf_len,", "'<=' in enforce_outbuf_len")
+m("M12d", "C12", A, "        enforce_outbuf_len::<Self>(buf);\n\n        buf.copy_from_slice(&self.0);", "        if buf.len() < Self::size() { enforce_outbuf_len::<Self>(buf); }\n\n        buf[..Self::size()].copy_from_slice(&self.0);", "tag write_exact accepts a longer buffer")
 # ---- C13
 m("M13a", "C13", A, ".checked_sub(tag_len)\n            .ok_or(HpkeError::OpenError)?;", ".wrapping_sub(tag_len);", "len - tag_len unchecked")
 m("M13b", "C13", X, """        enforce_equal_len(Self::OutputSize::to_usize(), encoded.len())?;
@@ -165,7 +166,7 @@ m("M13b", "C13", X, """        enforce_equal_len(Self::OutputSize::to_usize(), e
         Ok(PublicKey(""", "copy before the length check")
 # ---- C14
 m("M14a", "C14", SS, "    let ciphertext = aead_ctx.seal(plaintext, aad)?;", "    let ciphertext = aead_ctx.seal(plaintext, if aad.is_empty() { info } else { aad })?;", "single_shot_seal passes info as aad when aad is empty")
-m("M14b", "C14", SS, "    let mut aead_ctx = setup_receiver::<A, Kdf, Kem>(mode, sk_recip, encapped_key, info)?;\n    aead_ctx.open_in_place_detached(ciphertext, aad, tag)", "    let mut aead_ctx = setup_receiver::<A, Kdf, Kem>(mode, sk_recip, encapped_key, info).map_err(|_| HpkeError::OpenError)?;\n    aead_ctx.open_in_place_detached(ciphertext, aad, tag)", "single_shot_open_in_place maps DecapError to OpenError")
+m("M14b", "C14", SS, "    let mut aead_ctx = setup_receiver::<A, Kdf, Kem>(mode, sk_recip, encapped_key, info)?;\n    // Decrypt\n    aead_ctx.open_in_place_detached(ciphertext, aad, tag)", "    let mut aead_ctx = setup_receiver::<A, Kdf, Kem>(mode, sk_recip, encapped_key, info).map_err(|_| HpkeError::OpenError)?;\n    // Decrypt\n    aead_ctx.open_in_place_detached(ciphertext, aad, tag)", "single_shot_open_in_place maps DecapError to OpenError")
 # ---- C15
 m("M15a", "C15", O, "if (psk.is_empty() && psk_id.is_empty()) || (!psk.is_empty() && !psk_id.is_empty()) {", "if psk.is_empty() || !psk_id.is_empty() {", "lone psk_id accepted")
 m("M15b", "C15", O, None, None, "psk and psk_id swapped on both sides")  # special
@@ -248,7 +249,42 @@ def apply(mu):
         raise RuntimeError(f"{mu['id']}: pattern not found in {mu['file']}")
     open(path, "w").write(s.replace(mu["old"], mu["new"]))
 
+def external():
+    """--patch FILE --prop Cxx [--all-props]: run the checks against an externally supplied patch"""
+    i = sys.argv.index("--patch"); patch = os.path.abspath(sys.argv[i + 1])
+    prop = sys.argv[sys.argv.index("--prop") + 1]
+    root = ROOT + "_ext_" + str(os.getpid())
+    global REPO, SIM
+    repo, sim = root + "/repo", root + "/sim"
+    os.makedirs(root, exist_ok=True)
+    sh(f"rsync -a --delete --exclude target /repo/ {repo}/")
+    sh(f"rsync -a --delete --exclude target /verif/sim/ {sim}/")
+    for f in [sim + "/Cargo.toml", sim + "/dyn/Cargo.toml"] + [f"{sim}/dyn-{k}/Cargo.toml" for k in ("x25519", "p256", "p384", "p521")]:
+        t = open(f).read().replace('path = "/repo"', f'path = "{repo}"'); open(f, "w").write(t)
+    rc, out = sh(f"git apply {patch}", cwd=repo)
+    if rc != 0: print("patch does not apply:", out); shutil.rmtree(root, ignore_errors=True); return 2
+    rc, out = sh("cargo nextest run --workspace --no-fail-fast --offline 2>&1 | tail -5", cwd=repo)
+    print("baseline:", " ".join(out.split()[-12:]))
+    rc, out = sh("cargo build --release --offline 2>&1 | tail -20", cwd=sim)
+    if rc != 0: print("SIM-BUILD-FAILED\n" + out); shutil.rmtree(root, ignore_errors=True); return 2
+    props = ["C%02d" % i for i in range(1, 17)] + ["C18"] if "--all-props" in sys.argv else [prop]
+    tier = "thorough" if "--thorough" in sys.argv else "quick"
+    for pr in props:
+        t0 = time.time()
+        rc, out = sh(f"{sim}/target/release/hpke-sim run {pr} --tier {tier} --evidence {root}/ev.json --replay-dir {root}/rp --known /nonexistent", cwd=sim)
+        if rc == 1:
+            mv = re.search(r"VIOLATION property=(\S+) replay=(\S+)", out)
+            rrc, rout = sh(f"{sim}/target/release/hpke-sim replay {mv.group(2)}", cwd=sim)
+            body = out[out.index("violation in run"):] if "violation in run" in out else out
+            print(f"== {pr}: CAUGHT (replay {'ok' if rrc == 1 else 'FAILED'}) {time.time() - t0:.0f}s\n" + body[:1800])
+        else:
+            print(f"== {pr}: exit {rc} {time.time() - t0:.0f}s " + " ".join(out.split()[-14:]))
+    if "--keep" not in sys.argv: shutil.rmtree(root, ignore_errors=True)
+    return 0
+
 def main():
+    if "--patch" in sys.argv:
+        sys.exit(external())
     args = [a for a in sys.argv[1:] if not a.startswith("--")]
     if "--list" in sys.argv:
         for mu in M: print(mu["id"], mu["prop"], mu["note"])
